@@ -95,7 +95,8 @@ def run(rep, tier, seed, replay):
         td = tempfile.mkdtemp(prefix="c17-", dir=c.OUT)
         try:
             # "unused": the builder's default ignore_unused(true): only what a service reaches is collected and emitted
-            u = gen.Unit("gen", path, kind=kind, split=(mode == "split"), ignore_unused=(mode == "unused"), include=inc)
+            u = gen.Unit("gen", path, kind=kind, split=(mode in ("split", "workspace-split")), ignore_unused=(mode == "unused"), include=inc,
+                         workspace=mode.startswith("workspace"), more_idls=WS.get(path, ()) if mode.startswith("workspace") else ())
             gen.run_builder(u, td, env={"RAYON_NUM_THREADS": str(t)})
             return (t, u.ok, u.status, tree_hash(td))
         finally:
@@ -107,14 +108,21 @@ def run(rep, tier, seed, replay):
         has_service = bool(re.search(r"^\s*service\s", open(path).read(), re.M))
         return ("single", "split", "unused") if has_service else ("single", "split")
 
+    # workspace mode (one crate per entry IDL + a common crate): the repository's own workspace input and the multi-file set
+    wsdir = os.path.join(c.REPO, "pilota-build/test_data/thrift_workspace/input")
+    WS = {os.path.join(wsdir, "article.thrift"): [os.path.join(wsdir, "author.thrift"), os.path.join(wsdir, "image.thrift")],
+          os.path.join(d, "mt_main.thrift"): [os.path.join(d, "mt_user.thrift"), os.path.join(d, "mt_item.thrift")]}
+    WS = {k: v for k, v in WS.items() if os.path.exists(k)}
     jobs = [(kind, path, inc, mode, t) for kind, path, inc in idls for mode in modes_of(path) for t in threads]
+    jobs += [("thrift", path, os.path.dirname(path), mode, t) for path in WS for mode in ("workspace", "workspace-split") for t in threads]
+    idls = idls + [("thrift", path, os.path.dirname(path)) for path in WS if not any(i[1] == path for i in idls)]
     with concurrent.futures.ThreadPoolExecutor(max_workers=6) as ex:
         results = list(ex.map(one, jobs))
     by = {}
     for job, r in zip(jobs, results):
         by.setdefault((job[0], job[1], job[3]), []).append(r)
     for kind, path, inc in idls:
-        for mode in modes_of(path):
+        for mode in [m for m in modes_of(path) + ("workspace", "workspace-split") if (kind, path, m) in by]:
             hashes = by[(kind, path, mode)]
             runs += len(hashes)
             oks = {h[1] for h in hashes}
